@@ -12,16 +12,18 @@ CLAIMED = {
             "Generated-input search over (address kind x network x payload) with a structured-hash grid for every kind x net "
             "cell and a directed search for public keys whose hex lies inside the CashAddr alphabet; each case is compared with a "
             "reference encoder written from the specification, round-tripped through DecodeAddress in four renderings, re-checked "
-            "after SetFormat, and batches of cases are evaluated concurrently (state shared between calls).",
+            "after SetFormat, through the typed payload accessors, after the caller changed an earlier decoding result, and batches "
+            "of cases are evaluated concurrently (state shared between calls).",
             "Trusts crypto/sha256, x/crypto/ripemd160 and bchec point multiplication (used to make valid public keys). "
             "Sampling: 2^160 / 2^256 hashes are not enumerated."),
     "C02": ("property-based testing (rapid) with constructive generators (valid checksum over arbitrary 5-bit payloads, "
             "Base58Check over all version bytes, hostile public-key hex); oracle = strict reference acceptor + canonical "
             "re-encoding + network membership table",
-            "Generated-input search: every string is decoded on all six networks plus two custom networks with colliding legacy "
-            "ids; acceptance must imply canonical re-encoding, agreement with a strict reference acceptor written from the "
-            "CashAddr/Base58Check/SEC1 rules, and correct IsForNet; a version-byte x length grid; byte/rune alias renderings; "
-            "valid and corrupted strings decoded concurrently.",
+            "Generated-input search: every string is decoded on all six networks plus three custom networks (two with crosswise "
+            "colliding legacy ids); acceptance must imply canonical re-encoding, agreement with a strict reference acceptor written from the "
+            "CashAddr/Base58Check/SEC1 rules, and correct IsForNet; a version-byte x length grid; alias sweeps (every position of "
+            "a valid string x every byte/rune alias, white space and junk around / inside it); valid and corrupted strings "
+            "decoded concurrently.",
             "Only accept => conditions are asserted (completeness is C01). Trusts math/big and crypto/sha256."),
     "C03": ("exhaustive small-scope enumeration in syndrome space (meet-in-the-middle over the implementation's own remainder "
             "function, exported by a build-tag hook) justified by a rapid-sampled metamorphic law (affine linearity), plus "
@@ -32,46 +34,50 @@ CLAIMED = {
             "checked against the decoders (DecodeCashAddress, DecodeAddress with explicit prefix, bech32.Decode) and the reference. "
             "The decoders' acceptance sets are probed directly (remainder differences of low bit weight, cross-prefix constants, "
             "the bech32m constant; all 2^30 bech32 remainders in the thorough tier) and every extra accepted remainder becomes a "
-            "target of the syndrome search.",
+            "target of the syndrome search. Constructed few-letter strings with every subset of their letters in the other case.",
             "Completeness of the enumeration rests on the affine-linearity law, which is sampled (and checked completely for "
             "single-symbol errors on the zero codeword). Without the hook files the enumeration runs on reference arithmetic."),
     "C04": ("property-based testing (rapid) with reference-directed search for rare cases (children with leading-zero scalars); "
             "oracle = independent BIP32 implementation pinned to BIP32 vectors 1 and 3",
-            "Generated (seed, network, path) cases incl. boundary indices, depth-255 paths, SetNet; every node compared field by "
-            "field with an independent implementation, private, neutered and publicly derived.",
+            "Generated (seed, network incl. one registered late, path) cases incl. boundary indices, depth-255 paths, SetNet; every "
+            "node compared field by field with an independent implementation, private, neutered and publicly derived; neutered keys "
+            "and child derivation re-checked after the caller changed earlier results / derived other children first.",
             "Shares bchec point multiplication/addition with the implementation; stdlib HMAC/SHA. ErrInvalidChild branches are unreachable."),
     "C05": ("property-based testing (rapid) with constructive generators (recomputed checksums over adversarial payloads, exhaustive "
             "single-bit flips); oracle = strict reference validator + re-serialisation identity + BIP32 children of parsed fields",
-            "Generated keys and hostile strings; implementation and reference validator must agree on acceptance of every string.",
+            "Generated keys and hostile strings (incl. alias sweeps and junk around valid strings); implementation and reference "
+            "validator must agree on acceptance of every string.",
             "Reference Base58/BIP32 pinned to published vectors; bchec point arithmetic."),
     "C06": ("property-based testing (rapid): round-trip against a reference WIF codec and hostile payloads with recomputed checksums "
             "and exhaustive bit flips",
-            "Generated scalars (boundaries, forced leading zero bytes) x compression x networks; hostile strings judged by a "
-            "reference shape predicate.",
+            "Generated scalars (boundaries, forced leading zero bytes) x compression x networks; hostile strings (incl. alias "
+            "sweeps, junk around valid strings) judged by a reference shape predicate; decoded keys are the caller's.",
             "bchec scalar multiplication provides the expected public point; acceptance of scalars 0 / >= n is not asserted."),
     "C08": ("property-based testing (rapid) with structured-then-mutated generators per entry point (valid outer layer, degenerate inner "
             "content) and a resource oracle: no panic, no repeated >10 s call, bytes allocated <= 2 MiB + 8 KiB per input byte",
             "Generated hostile inputs for every parsing entry point named in the statement, incl. constructed CashAddr strings with a "
             "valid checksum over <8 symbols, empty filter-loads, declared-count GCS/wire inputs, heterogeneous and deeply nested JSON, "
-            "layered spend-graph blocks (scan time), merkle builders on parsed blocks; hangs (90 s watchdog) and out-of-memory "
+            "layered spend-graph blocks (scan time), merkle builders on parsed blocks, filter re-loads racing with matches; hangs (90 s watchdog) and out-of-memory "
             "process deaths are attributed to the saved current case. Thorough tier adds native go fuzzing of six targets.",
             "Termination 'at most quadratic' is only checked as 'no hang'; allocation inside bchd's wire decoder is a listed known "
             "finding (wire-prealloc) with a bounded allowance."),
     "C09": ("property-based testing (rapid), stateful: generated op sequences run in lock-step with an independent BIP37 model "
             "(own MurmurHash3 pinned to Bitcoin Core vectors), bit-for-bit comparison after every step",
             "Generated (filter size, k, tweak, flags) x Add/AddHash/AddOutPoint/Matches/MatchesOutPoint/Unload/Reload sequences; "
-            "MurmurHash3 differential; NewFilter sizing bounds over hostile arguments.",
+            "MurmurHash3 differential; NewFilter sizing bounds over hostile arguments; sibling filters and one shared caller buffer.",
             "Empty filters are outside the statement's range (covered by C08). Sampling only."),
     "C10": ("property-based testing (rapid) over a script grammar and random intra-block spend DAGs with permutations; oracles = "
             "BIP37 IsRelevantAndUpdate on an independent bloom model (exact answer and bits) and exact-set least fixpoint / final-"
             "filter bounds for block scans",
             "Generated transactions/blocks (all script classes, unparsable scripts, empty pushes), three update flags, topological / "
-            "reverse / CTOR / random orders.",
+            "reverse / CTOR / random orders; directed spend chains (up to 90 links) whose links become relevant only through their "
+            "parent, relevant outputs at indices up to 65536, coinbase-style inputs.",
             "txscript.PushedData/GetScriptClass (bchd) define pushes and classes; pushes of length 36 are excluded."),
     "C11": ("exhaustive small-scope enumeration (all subsets for n<=10 quick / 15 thorough; structured subsets for n=1..65) + rapid for "
             "n up to 4000; oracle = independent partial-merkle-tree builder/extractor and merkle root",
             "Every generated (n, subset) is built by the library (hash-set and both filter-driven builders), compared with the "
-            "canonical BIP37 tree built independently, and extracted by the implementation and the reference.",
+            "canonical BIP37 tree built independently, and extracted by the implementation and the reference; one block of "
+            "16667..65537 (thorough ..500000) transactions per shard.",
             "crypto/sha256; filter-induced subsets computed with the C09 bloom model."),
     "C12": ("exhaustive small-scope enumeration (counts {0..7,cap,cap+1,2^32-1} x hash lists over a 3-symbol alphabet x flag strings) + "
             "rapid mutation of honest proofs; oracle = independent functional extractor with every rejection rule",
@@ -81,21 +87,22 @@ CLAIMED = {
     "C13": ("property-based testing (rapid) with a directed generator that searches 2^18 candidates for low-32-bit collisions of "
             "reduced hashes; oracle = exact set semantics on own SipHash-2-4 + bits.Mul64 reduction",
             "Generated keys, P 0..32, M, multisets up to 2000/20000 items and query sets below/above N/2; all four query strategies "
-            "compared with exact set membership.",
+            "compared with exact set membership; sets of about 2^16 members; two members congruent modulo 2^32; call histories.",
             "SipHash reference pinned to the paper's vectors and cross-checked against aead/siphash."),
     "C14": ("property-based testing (rapid) against an independent Golomb-Rice encoder / CompactSize serialiser / dSHA256, incl. forced "
             "carry-path parameters; builder chains and block/mempool filter construction",
-            "Generated filters, blocks and builder chains; bytes, serialisations, rebuilt filters, filter hash and header compared "
-            "with the reference.",
+            "Generated filters, blocks and builder chains (all constructors and setters); bytes, serialisations, rebuilt filters, "
+            "filter hash and header compared with the reference.",
             "crypto/sha256; SipHash reference as in C13."),
     "C15": ("property-based testing (rapid), stateful histories over a pool of keys with a per-identity model key (independent BIP32) "
             "and reflection-captured buffers for Zero",
             "Generated histories of NewMaster/NewKeyFromString/NewExtendedKey/Child/Neuter/SetNet/Zero/observers; every live key "
-            "re-observed after every step.",
+            "re-observed after every step; zeroed keys must stay zeroed under later operations.",
             "reflect+unsafe read of four private fields (rename = harness error)."),
     "C16": ("property-based testing (rapid), stateful accessor histories over generated blocks/transactions x 4 constructors; oracle = "
             "fresh recomputation from the wire message, pointer identity, re-parse",
-            "Generated blocks (0..40 txs, token data) and accessor interleavings incl. out-of-range indices.",
+            "Generated blocks (0..40 and 250..260 txs, token data), four reader types whose storage is overwritten afterwards, "
+            "accessor interleavings incl. out-of-range and 64-bit indices.",
             "bchd wire serialisation/hashing is the definition of 'fresh computation'; only blocks bchd round-trips byte-for-byte."),
     "C17": ("property-based testing (rapid) with boundary-directed float/integer generators; oracle = exact arithmetic in math/big",
             "Generated floats (decimal grid +- ulps, ties, products at 0.5 / odd >= 2^52, random bit patterns, specials), integers up "
@@ -104,17 +111,19 @@ CLAIMED = {
     "C18": ("exhaustive small-scope enumeration (all arrangements of <=6 inputs over 6 keys, <=4/5 outputs over 15 keys) + rapid up to "
             "300 inputs/outputs; oracle = reference BIP69 comparator, multiset equality, untouched original",
             "Every generated transaction: Sort/InPlaceSort/IsSorted checked against the reference comparator, permutation and "
-            "non-destructiveness.",
-            "Order among equal keys is not asserted."),
+            "non-destructiveness; Sort(tx) and InPlaceSort(copy) must serialise identically.",
+            "Which order entries with equal keys end up in is not prescribed, only that both functions agree."),
     "C19": ("property-based testing (rapid): validity predicates per selector, exact reference for the prefix selectors, list model for "
             "CoinSet histories",
-            "Generated coin lists (ties, zeros), targets, MaxInputs, MinChange, MinAvg for all four selectors; push/pop/shift histories.",
+            "Generated coin lists (ties, zeros), targets, MaxInputs, MinChange, MinAvg for all four selectors; push/pop/shift "
+            "histories; the library's SimpleCoin over several outputs of one transaction.",
             "MinPriority is not required to find a selection whenever one exists."),
     "C20": ("generated concurrent programs executed repeatedly under the Go race detector, with porcupine linearizability checking "
             "against the sequential BIP37 model and post-join invariants",
             "Exploration of the interleavings that occur in repeated executions of generated programs (2..32 goroutines); race "
             "detector + linearizability + no-lost-update + read-your-write + cold-message + load-state-agreement invariants; "
-            "GCS filters (built, re-parsed, never-queried, inflated N) queried concurrently.",
+            "a bystander filter next to every program; lockstep rounds (persistent workers, one operation per round, views compared "
+            "in the quiet state); GCS filters (built, re-parsed, never-queried, inflated N) queried concurrently.",
             "The harness does not own the scheduler; the static 'all paths' part of the statement is not decided."),
     "C07": ("property-based testing (rapid) + exhaustive small-scope enumeration against independent "
             "reference codecs (long-division Base58, BIP173 reference, bit-stream model) and an argument-purity canary",
